@@ -14,7 +14,8 @@ import traceback
 
 from . import gen_index, gen_own
 from .core import Diverged, Seams, Streams, Violation, WatchdogTimeout
-from .ops import OPS, execute, labels_exist
+from .ops import OPS, labels_exist
+from .ops import execute_strict as execute
 from .ops_index import METHODS, PROP_OF, canon_answer, mk_query
 from .profiles import INDEX_BASE, IndexProfile, profile, swarm_weights
 from .sim import RunResult
